@@ -1,0 +1,33 @@
+//go:build verif
+
+// Contracts for the governance application (C01, C08, C10). Comment-only.
+package governance
+
+//@ ghost var GLocalUpg int
+//@ ghost var GDepTaken int
+//@ ghost var GIdSet int
+
+// ---- proposal execution (C01): the node-local upgrade manager never decides consensus state ----
+
+//@ func Application.executeProposal
+//@   props C01
+//@   requires app != nil && ctx != nil && proposal != nil
+//@   ensures GLocalUpg > old(GLocalUpg) ==> result == nil
+//@   note once the node-local upgrade manager has been told about the proposal (SubmitDescriptor / CancelUpgrade), the execution succeeds whatever the manager answered: its state is local to the node - it is not rolled back with a discarded proposal overlay and differs after a restart - so an error it returns (e.g. "already pending" on the second execution of the same block) must not turn into the proposal's recorded outcome, which is consensus state (seed C01_g)
+
+// ---- proposal submission (C08): nothing is written before the last check that can reject ----
+
+//@ func Application.submitProposal
+//@   props C08
+//@   requires app != nil && ctx != nil && state != nil && proposalContent != nil
+//@   precall governance/state\.MutableState\)\.SetNextProposalIdentifier$ :: GDepTaken > old(GDepTaken)
+//@   precall governance/state\.MutableState\)\.SetActiveProposal$ :: GDepTaken > old(GDepTaken) && GIdSet > old(GIdSet)
+//@   note the handler runs directly on the block state (no transaction context), so whatever it writes survives a failing transaction. The proposal identifier is allocated and the proposal stored only after the deposit was taken from the submitter - the last step that can reject the transaction (content validation, pending-upgrade and balance checks all come before it); after it only storage errors, which abort the block, are possible (seed C08_h allocated the identifier before the content checks)
+
+// ---- closing proposals at the epoch transition (C10): the deposit returned is the deposit recorded ----
+
+//@ func Application.EndBlock
+//@   props C10
+//@   requires app != nil && ctx != nil
+//@   precall staking/state\.MutableState\)\.(TransferFromGovernanceDeposits|DiscardGovernanceDeposit)$ :: argIs(2, &proposal.Deposit) || argIs(1, &proposal.Deposit)
+//@   note what a closed proposal gives back to its submitter (or discards) is the deposit RECORDED in the proposal when it was submitted - the governance deposits pool holds exactly the sum of those - and not the current minimum-deposit parameter, which a passed proposal may have raised in the meantime: the transfer would then exceed the pool and EndBlock would fail (seed C10_g)
